@@ -4,6 +4,8 @@
 //! `--cfg verif_replay` (std BTreeMap, no Kani); the value source is the recorded bytes.
 use bourse_book::verif::replay::{not_found, run_with, Outcome};
 
+mod findings;
+
 fn esc(s: &str) -> String {
     s.replace('\\', "\\\\").replace('"', "\\\"").replace('\n', " ")
 }
@@ -47,6 +49,18 @@ fn parse_bytes(txt: &str) -> Vec<Vec<u8>> {
 
 fn main() {
     let args: Vec<String> = std::env::args().collect();
+    if args.len() >= 2 && args[1] == "--finding" {
+        // concrete public-API demonstrations of recorded findings
+        let roles: Vec<String> = if args.len() >= 3 { vec![args[2].clone()] } else { findings::ROLES.iter().map(|s| s.to_string()).collect() };
+        for r in roles {
+            match findings::run(&r) {
+                Some(Some(d)) => println!("{{\"role\":\"{}\",\"present\":true,\"detail\":\"{}\"}}", r, esc(&d)),
+                Some(None) => println!("{{\"role\":\"{}\",\"present\":false}}", r),
+                None => println!("{{\"role\":\"{}\",\"error\":\"no demonstration\"}}", r),
+            }
+        }
+        return;
+    }
     if args.len() < 3 {
         eprintln!("usage: verif-replay <harness> <bytes.json>");
         std::process::exit(64);
